@@ -878,6 +878,9 @@ func (r *run) noteOutOfOrder() {
 				if uid < max {
 					r.ooo[i] = true
 				}
+				if uid > max {
+					max = uid // a later queued EXISTS below this one arrives out of order as well
+				}
 			}
 		}
 		prev := map[string]bool{}
